@@ -442,6 +442,13 @@ def _option_tokens_derivation(ctx, c, init, opt_f, tok_f):
             return ok, det
         if isinstance(expr, ast.Call) and isinstance(expr.func, ast.Name) and expr.func.id in ("list", "tuple") and len(expr.args) == 1 and depth < 3:
             return judge(fn, expr.args[0], depth + 1)
+        # <tokens>[: <tokens>.index("--")]  - the prefix before the first separator
+        if isinstance(expr, ast.Subscript) and isinstance(expr.slice, ast.Slice) and expr.slice.lower is None and expr.slice.step is None and is_tokens(expr.value):
+            up = expr.slice.upper
+            if isinstance(up, ast.Call) and isinstance(up.func, ast.Attribute) and up.func.attr == "index" and norm(up.func.value) == norm(expr.value) and up.args and isinstance(up.args[0], ast.Constant) and up.args[0].value == "--":
+                return True, "tokens[:tokens.index('--')]"
+            if up is None:
+                return True, "whole copy (no separator arm)"
         if isinstance(expr, ast.Call) and isinstance(expr.func, ast.Attribute) and isinstance(expr.func.value, ast.Name) and expr.func.value.id == "self" and depth < 2:
             h = c.methods.get(expr.func.attr) or ctx.p.lookup_method(c, expr.func.attr)
             if h is not None:
@@ -462,11 +469,25 @@ def _option_tokens_derivation(ctx, c, init, opt_f, tok_f):
             return True, "stop-at-'--' loop"
         return False, norm(expr)[:60]
 
-    for n in walk_no_nested(init.node):
-        if isinstance(n, ast.Assign) and any(is_self_attr(t, opt_f) for t in n.targets):
-            v = n.value
-            ok, det = judge(init, v)
-            if not ok and isinstance(v, (ast.List, ast.Call)) and loop_ok(init, "self." + opt_f):
-                return True, "stop-at-'--' loop"
-            return ok, det
-    return False, "option tokens never assigned in __init__"
+    assigns = [n for n in walk_no_nested(init.node) if isinstance(n, ast.Assign) and any(is_self_attr(t, opt_f) for t in n.targets)]
+    if not assigns:
+        return False, "option tokens never assigned in __init__"
+    icfg = ctx.cfg(init)
+    verdicts = []
+    for n in assigns:
+        v = n.value
+        ok, det = judge(init, v)
+        if not ok and isinstance(v, (ast.List, ast.Call)) and loop_ok(init, "self." + opt_f):
+            ok, det = True, "stop-at-'--' loop"
+        if ok and det.startswith("whole copy"):
+            # only where the tokens are known to hold no separator
+            nosep = [e.id for e in icfg.nodes if e.kind in ("T", "F") and isinstance(e.ast, ast.Compare) and len(e.ast.ops) == 1 and isinstance(e.ast.left, ast.Constant) and e.ast.left.value == "--"
+                     and ((isinstance(e.ast.ops[0], ast.In) and e.kind == "F") or (isinstance(e.ast.ops[0], ast.NotIn) and e.kind == "T"))]
+            ok = any(icfg.dominates(x, cn.id) for x in nosep for cn in icfg.nodes_of(n))
+            if not ok:
+                det = "all tokens taken as option tokens without a test that there is no '--'"
+        verdicts.append((ok, det))
+    bad = [d for ok_, d in verdicts if not ok_]
+    if bad:
+        return False, bad[0]
+    return True, "; ".join(sorted({d for _, d in verdicts}))
